@@ -149,21 +149,41 @@ func typeEncCase(which int, p []byte, big bool) (interface{}, []byte) {
 	}
 }
 
-func typeEncoderFor(which int, big bool) (encode.Encoder, error) {
-	var zero interface{}
+// typeEncoderFor builds the encoder through one of the documented constructors:
+// ctor 0: NewTypeEncoderEndian(value), 1: NewTypeEncoderEndian(pointer),
+// 2: NewTypeEncoderEndianByType, 3: NewTypeEncoder (little-endian default; only when !big).
+func typeEncoderFor(which int, big bool, ctor int) (encode.Encoder, error) {
+	var zero, ptr interface{}
 	switch which % 3 {
 	case 0:
-		zero = te1{}
+		zero, ptr = te1{}, &te1{}
 	case 1:
-		zero = te2{}
+		zero, ptr = te2{}, &te2{}
 	default:
-		zero = te3{}
+		zero, ptr = te3{}, &te3{}
 	}
 	var ord binary.ByteOrder = binary.LittleEndian
 	if big {
 		ord = binary.BigEndian
 	}
+	switch ctor % 4 {
+	case 1:
+		return encode.NewTypeEncoderEndian(ptr, ord)
+	case 2:
+		return encode.NewTypeEncoderEndianByType(reflect.TypeOf(zero), ord)
+	case 3:
+		if !big {
+			return encode.NewTypeEncoder(zero)
+		}
+	}
 	return encode.NewTypeEncoderEndian(zero, ord)
+}
+
+// ptrTo returns a pointer to a copy of the struct value v.
+func ptrTo(v interface{}) interface{} {
+	p := reflect.New(reflect.TypeOf(v))
+	p.Elem().Set(reflect.ValueOf(v))
+	return p.Interface()
 }
 
 // checkC15: c.Kind names the codec; c.Ints are raw integer values, c.Vals string/byte payloads.
@@ -225,12 +245,17 @@ func checkC15(c *Case, s *Stats) error {
 		for i, p := range c.Vals {
 			which := c.Block + i
 			big := c.Scrib&1 == 1
-			e, err := typeEncoderFor(which, big)
+			ctor := c.Scrib >> 2
+			e, err := typeEncoderFor(which, big, ctor)
 			if err != nil {
-				return viol("type-encoder", "NewTypeEncoderEndian rejected a fixed-size struct: %v", err)
+				return viol("type-encoder", "TypeEncoder constructor %d rejected a fixed-size struct: %v", ctor%4, err)
 			}
 			v, ref := typeEncCase(which, []byte(p), big)
-			if err := encLaw(fmt.Sprintf("TypeEncoder(%T,big=%v)", v, big), e, v, ref, junk, v); err != nil {
+			var arg interface{} = v
+			if c.Scrib&2 == 2 {
+				arg = ptrTo(v) // a pointer to the struct is in the encoder's domain too; Decode yields the value
+			}
+			if err := encLaw(fmt.Sprintf("TypeEncoder(%T,big=%v,ctor=%d)", arg, big, ctor%4), e, arg, ref, junk, v); err != nil {
 				return err
 			}
 			if !reflect.DeepEqual(e.GetSize(v), len(ref)) {
